@@ -16,6 +16,9 @@ CONFIGS = {
     # force the 32-bit code paths the ESP8266 uses
     'c32': ['-DBR_64=0', '-DBR_INT128=0', '-DBR_UMUL128=0', '-DBR_AES_X86NI=0',
             '-DBR_SSE2=0', '-DBR_RDRAND=0', '-DBR_LOMUL=1'],
+    # system-seeder matrix of src/rand/sysrng.c (C20: "library builds with system seeders enabled / all disabled")
+    'rnd_getentropy_only': ['-DBR_RDRAND=0', '-DBR_USE_GETENTROPY=1', '-DBR_USE_URANDOM=0'],
+    'rnd_urandom_only': ['-DBR_RDRAND=0', '-DBR_USE_GETENTROPY=0', '-DBR_USE_URANDOM=1'],
 }
 
 
